@@ -27,8 +27,20 @@ type c04Graph struct {
 	Kinds  []string `json:"kinds"`
 }
 
+// a closure frozen by the host while its defining function is still running, whose captured
+// variable is rebound afterwards: the new value must still be frozen when the module finishes
+const c04Prelude = `def mkreb(b):
+    x = [1]
+    def get():
+        return x
+    hostfreeze(get)
+    x = b
+    return get
+`
+
 func c04Source(g *c04Graph) string {
 	var b strings.Builder
+	b.WriteString(c04Prelude)
 	n := 0
 	for _, h := range g.Hist {
 		op := h[0].(string)
@@ -55,6 +67,8 @@ func c04Source(g *c04Graph) string {
 				e = fmt.Sprintf("(lambda v: lambda: v)(node(%d))", c)
 			case "mutclosure":
 				e = fmt.Sprintf("(lambda v: lambda: mut(v))(node(%d))", c)
+			case "rebclosure":
+				e = fmt.Sprintf("mkreb(node(%d))", c)
 			case "bound":
 				m := map[string]string{"list": "append", "dict": "setdefault", "set": "add"}[g.Kinds[c-1]]
 				e = fmt.Sprintf("node(%d).%s", c, m)
@@ -307,6 +321,10 @@ func c04Run(g *c04Graph, helpers starlark.StringDict) (problems []string, nprobe
 		}),
 		"mut": starlark.NewBuiltin("mut", func(th *starlark.Thread, _ *starlark.Builtin, args starlark.Tuple, _ []starlark.Tuple) (starlark.Value, error) {
 			return starlark.None, c04Benign(th, args[0])
+		}),
+		"hostfreeze": starlark.NewBuiltin("hostfreeze", func(_ *starlark.Thread, _ *starlark.Builtin, args starlark.Tuple, _ []starlark.Tuple) (starlark.Value, error) {
+			args[0].Freeze()
+			return starlark.None, nil
 		}),
 		"boom": starlark.NewBuiltin("boom", func(*starlark.Thread, *starlark.Builtin, starlark.Tuple, []starlark.Tuple) (starlark.Value, error) {
 			return nil, fmt.Errorf("boom")
